@@ -3,6 +3,7 @@
 from __future__ import annotations
 
 import ast
+import re
 
 from ..callgraph import CallGraph
 from ..flow import loop_carried, node_uses, provenance, stmt_of, MUTATORS
@@ -405,10 +406,13 @@ def r5(ctx):
         # different text: compare what the two blocks do, case by case, in both directions
         from .. import review
 
-        tm, tt = review.block_table([bm]), review.block_table([bt])
+        tm, tt = review.block_table([bm], fi=m), review.block_table([bt], fi=t)
         diffs = review.compare_tables(tt, tm) + review.compare_tables(tm, tt)
         same = not diffs
         why = "; ".join(d[3][:200] for d in diffs[:2])
+    if not same and (review.rewritten(repo, "tree:_tree") or review.rewritten(repo, "__main__:_main")):
+        ctx.soft(False, "__main__:_main/tree:_tree:loading-blocks-equal", f"one of the two front ends was re-written since it was reviewed; their loading code could not be shown equal: {why[:200]}", t.loc(bt))
+        same = True
     ctx.check(same, "__main__:_main/tree:_tree:loading-blocks-equal", f"the analysis-file loading code of codebasin and cbi-tree differ: the two front ends would analyse different configurations: {why}", t.loc(bt))
     for f, b in ((m, bm), (t, bt)):
         loops = [x for x in ast.walk(b) if isinstance(x, ast.For) and "analysis_toml['platform']" in u(x.iter) and any(isinstance(y, ast.Call) and callee(y) == "config.load_database" for y in ast.walk(x))]
@@ -426,3 +430,41 @@ def r5(ctx):
         ok = ok and len(ld) == 1 and [u(a) for a in ld[0].args] == ["p", "rootdir"]
         ctx.check(ok, key, "a platform must be skipped iff -p was given and does not name it; its database is loaded on its own (database path, root) and stored under its own name", f.loc(lp))
     ctx.floor(3)
+
+
+@rule("C08.R8", "associations only grow: nothing removes a platform from a node's association set, and a file's map is replaced only when the file is (re)parsed")
+def r8(ctx):
+    """The result of a platform is the UNION over its commands: whatever one command associated must survive the
+    processing of every later command and platform.  Who may write the association maps is therefore fixed:
+    ParserState.insert_file creates a file's map, the visitor of ParserState.associate adds a platform to a set;
+    no shrinking operation may be applied to anything obtained from get_map() / .maps anywhere in the package."""
+    repo = ctx.repo
+    SHRINK = {"discard", "remove", "clear", "pop", "popitem", "difference_update", "intersection_update", "symmetric_difference_update"}
+    n = 0
+    for f in repo.all_functions():
+        for x in f.body_nodes():
+            recv = None
+            what = None
+            if isinstance(x, ast.Call) and isinstance(x.func, ast.Attribute) and x.func.attr in SHRINK:
+                recv, what = x.func.value, u(x)[:70]
+            elif isinstance(x, ast.Delete):
+                for t in x.targets:
+                    if isinstance(t, ast.Subscript):
+                        recv, what = t.value, u(x)[:70]
+            elif isinstance(x, ast.AugAssign) and isinstance(x.op, (ast.Sub, ast.BitAnd)) and isinstance(x.target, (ast.Subscript, ast.Name, ast.Attribute)):
+                recv, what = x.target, u(x)[:70]
+            if recv is None:
+                continue
+            texts = {u(recv)}
+            try:
+                st = stmt_of(f, x)
+                for leaf, chain in provenance(f, recv, st):
+                    texts.add(u(leaf))
+                    texts.update(str(c) for c in (chain if isinstance(chain, (list, tuple)) else [chain]))
+            except Exception:
+                pass
+            n += 1
+            hit = [t for t in texts if "get_map(" in t or ".maps" in t or re.search(r"\bassociation\b", t) or ".values()" in t and "get_map" in " ".join(texts)]
+            ctx.check(not hit, f"{f.key}:shrinks-association:{what}", f"`{what}` removes something from an association map ({sorted(hit)[:2]}): what an earlier compile command or platform associated is lost, the platform's result is no longer the union over its commands and depends on their order", f.loc(x))
+    ctx.stats["shrinking_operations_inspected"] = n
+    ctx.floor(5)
